@@ -297,9 +297,15 @@ where
                 .await?;
         }
 
+        // Raft: commitIndex = min(leaderCommit, index of last new entry). Only the prefix up to
+        // prev_log_index + entries.len() has been checked against this leader's log; entries the
+        // follower holds beyond it may be the leftovers of a deposed leader and must not be
+        // committed on the strength of leader_commit_index (a capped catch-up request carries a
+        // commit index far ahead of the entries it brings).
+        let last_verified_index = request.prev_log_index + request.entries.len() as u64;
         if let Some(new_commit_index) = Self::if_update_commit_index_as_follower(
             state_snapshot.commit_index,
-            raft_log.last_entry_id(),
+            last_verified_index.min(raft_log.last_entry_id()),
             request.leader_commit_index,
         ) {
             debug!("new commit index received: {:?}", new_commit_index);
